@@ -276,7 +276,7 @@ def execute(case):
     probes = {"expired_in_enumeration": 0, "expired_in_initial_stack": 0,
               "expired_in_production_loop": 0, "stream_cut_short": 0,
               "empty_prefix": 0, "result_without_resolution": 0,
-              "input_raises_without_deadline": 0}
+              "input_raises_without_deadline": 0, "long_input_runs": 0}
     obs = []
     deltas = case.get("deltas")
     n_eval = 0
@@ -284,6 +284,62 @@ def execute(case):
     def viol(oracle, cls, detail):
         V.append({"oracle": oracle, "class": cls, "detail": detail})
 
+    if case.get("no_reference"):
+        # inputs whose complete parse is out of reach (a chain of a thousand adjacent
+        # expressions, hundreds of repeated ambiguous tokens): only runs WITH a deadline, under
+        # the unit-tick clock (read i returns i, so the deadline k - 0.5 expires at read k);
+        # judged without a reference stream: no exception, a result object, nothing after the
+        # expiring check, bounded work between checks, not more than k + 1 reads
+        for k in case.get("expiries", []):
+            timeout = k - 0.5
+            S, log, exc_, clock = _run(lib, case, timeout, "gen")
+            n_eval += 1
+            faults["deadline"] += 1
+            probes["long_input_runs"] += 1
+            obs.append(["long", k, None if S is None else len(S), clock.n])
+            if exc_:
+                viol("C13.raises", "deadline:" + exc_.split(":")[0],
+                     "text=%r... (%d tokens) expiry=%s: %s"
+                     % (case["text"][:24], len(case["text"].split()), k, exc_))
+                continue
+            a, p_, s_, after, expired_at = _gaps(log, timeout)
+            if expired_at is not None:
+                probes["expired_in_" + _phase(log, expired_at).replace("-", "_")] += 1
+                keys.append(core.short([case["text"][:40], len(case["text"]), k]))
+            if after:
+                viol("C13.stops-at-first-check", "long-input",
+                     "text=%r... expiry=%s: %d unit(s) of work / clock reads after the check "
+                     "that observed the expired deadline" % (case["text"][:24], k, after))
+            if clock.n > k + 1:
+                viol("C13.stops-at-first-check", "deadline-not-honoured",
+                     "text=%r... expiry=%s: %d clock reads (the deadline had passed at read %d)"
+                     % (case["text"][:24], k, clock.n, k))
+            if a > 1 or p_ > 1 or s_ > 1:
+                viol("C13.bounded-work",
+                     "analyses-between-checks" if a > 1 else
+                     ("expansions-between-checks" if p_ > 1 else "scorings-between-checks"),
+                     "text=%r... expiry=%s: between two checks: %d analyses, %d partial parses "
+                     "expanded, %d excess scorings" % (case["text"][:24], k, a, p_, s_))
+            if k != case["expiries"][-1]:
+                continue      # (the single-result entry point once per input: each run of a
+                #                1200-token text spends seconds in the quadratic adjacency scan)
+            res, _, exc_c, _ = _run(lib, case, timeout, "call")
+            n_eval += 1
+            if exc_c:
+                viol("C13.raises", "deadline-call:" + exc_c.split(":")[0],
+                     "text=%r... expiry=%s: ctparse() raised %s" % (case["text"][:24], k, exc_c))
+            elif res is None:
+                viol("C13.best-so-far", "no-result-object",
+                     "text=%r... expiry=%s: ctparse() returned None" % (case["text"][:24], k))
+            elif not S and res[0] is not None:
+                viol("C13.best-so-far", "empty-prefix-result",
+                     "text=%r... expiry=%s: stream prefix is empty but ctparse() returned %r"
+                     % (case["text"][:24], k, res))
+        return {"viol": V, "digest": core.digest(obs), "n_eval": n_eval, "keys": keys,
+                "faults": faults, "probes": probes,
+                "sim_time": sum(case.get("expiries", [])),
+                "sample": {"text": case["text"][:60] + "...", "tokens": len(case["text"].split()),
+                           "expiries": case.get("expiries", [])}}
     # -- reference runs: no effective deadline, and timeout=0
     S_inf, log_inf, exc, clock_inf = _run(lib, case, BIG, "gen", deltas)
     n_eval += 1
@@ -511,6 +567,27 @@ def plan(prop, tier, seed):
         texts.append((workload.structured_text(rng), "grammar"))
     for i in range(4 if quick else 30):
         texts.append((workload.gen_text(rng, 5), "soup"))
+    # long inputs (no reference run possible): a chain of adjacent expressions forming ONE
+    # candidate sequence, and hundreds of repeated ambiguous tokens
+    long_cases = []
+    for i in range(2 if quick else 16):
+        r = core.stream(core.derive_seed(seed, prop, tier, "long", i), "workload")
+        if i % 2 == 1:
+            n = r.choice([150, 300, 500])
+            text = " ".join([r.choice(["5", "1", "8"])] * n)
+            ks = sorted({5, 200, r.randint(500, 2500), 3000})
+        else:
+            n = r.choice([1050, 1200])
+            w = r.choice(["jan", "mon", "dec", "fri"])
+            text = " ".join([w] * n)
+            ks = sorted({n // 2, n - r.randint(20, 60), n + 2})
+        long_cases.append({"text": text, "ts": fmt_ts(workload.ref_time(r, 2000, 2040)
+                                                     .replace(microsecond=0)),
+                           # (the shipped model needs seconds to score one 1200-token sequence)
+                           "opts": {"scorer": "dummy",
+                                    "max_stack_depth": 10, "latent_time": True,
+                                    "relative_match_len": 1.0},
+                           "family": "long", "no_reference": True, "expiries": ks})
     full_cap = 260 if quick else 2500
     sample_n = 120 if quick else 700
     chunk = 40
@@ -582,7 +659,7 @@ def plan(prop, tier, seed):
             c["cstalls"] = base["cstalls"] if first else []
             first = False
             cases.append(c)
-    return cases
+    return cases + long_cases
 
 
 def shrink_moves(case):
